@@ -1,5 +1,5 @@
 (* C01 — the reported matching is always a valid matching of the input instance. *)
-From MP Require Import LP.Oracle Proofs.LPSound Proofs.RunStructure Props.Examples.
+From MP Require Import LP.Oracle Run.Main Text.Render Proofs.LPSound Proofs.RunStructure Proofs.MainEndToEnd Props.Examples.
 Local Open Scope list_scope. Open Scope Z_scope.
 
 (* every 0/1 point of the basic constraints (student <= 1, project and lecturer quotas, closures) denotes a
@@ -32,6 +32,22 @@ Theorem C01_every_problem_has_base : forall M o solve out base,
   forall k P, nth_error (out_trace out) k = Some P -> exists extra, pb_cs P = base ++ extra.
 Proof. intros M o solve out base H Hb. exact (proj1 (proj2 (run_structure M o solve out base H Hb))). Qed.
 Print Assumptions C01_every_problem_has_base.
+
+(* from the command line: Solver(argv) (Run/Main.v) on a file of the documented format, one solve with any correct
+   MILP back end; when the status is Optimal, the values the results are printed from denote a valid matching of the
+   instance the file denotes *)
+Theorem C01_command_line : forall c A trailer t0 limit e s',
+  acceptable_ns (c_ns c) (c_twopl c) (c_stab c) = true ->
+  wf_ast (c_na c) (c_twopl c) A = true ->
+  wf (denote (c_na c) (c_twopl c) A) = true ->
+  c_bf c = false ->
+  milp_ok (denote (c_na c) (c_twopl c) A) (e_solve e) ->
+  (exists s, solver_new c (Some (render (c_na c) A trailer)) t0 = SReady s /\ do_solve s limit e = Ok s') ->
+  s_status s' = "Optimal"%string ->
+  valid_b (c_pc c) (denote (c_na c) (c_twopl c) A)
+          (matching_of (denote (c_na c) (c_twopl c) A) (val_fun (s_vals s'))) = true.
+Proof. exact command_line_valid. Qed.
+Print Assumptions C01_command_line.
 
 (* non-vacuity: a well-formed instance and a 0/1 point satisfying the basic constraints *)
 Example C01_example :
